@@ -2,7 +2,7 @@
 //! A generator panic / exit is observed by the caller through the exit status.
 //!
 //! vgen <thrift|proto> --out <file-or-dir> [--workspace] [--split] [--keep] [--no-change-case]
-//!      [--ignore-unused] [--include <dir>]... <idl>...
+//!      [--ignore-unused] [--dedup <name,name..>] [--include <dir>]... <idl>...
 use pilota_build::{Builder, IdlService, Output};
 use std::path::PathBuf;
 
@@ -13,6 +13,7 @@ fn main() {
     let (mut workspace, mut split, mut keep, mut change_case, mut ignore_unused) = (false, false, false, true, false);
     let mut includes: Vec<PathBuf> = vec![];
     let mut idls: Vec<PathBuf> = vec![];
+    let mut dedup: Vec<String> = vec![];
     while let Some(a) = args.next() {
         match a.as_str() {
             "--out" => out = Some(PathBuf::from(args.next().unwrap())),
@@ -22,6 +23,7 @@ fn main() {
             "--no-change-case" => change_case = false,
             "--ignore-unused" => ignore_unused = true,
             "--include" => includes.push(PathBuf::from(args.next().unwrap())),
+            "--dedup" => dedup = args.next().unwrap().split(',').filter(|x| !x.is_empty()).map(|x| x.to_string()).collect(),
             x => idls.push(PathBuf::from(x)),
         }
     }
@@ -40,6 +42,9 @@ fn main() {
             if keep {
                 b = b.keep_unknown_fields(idls.clone());
             }
+            if !dedup.is_empty() {
+                b = b.dedup(dedup.iter().map(|x| x.clone().into()));
+            }
             b.compile_with_config(services, output);
         }
         "proto" => {
@@ -48,6 +53,9 @@ fn main() {
                 .split_generated_files(split)
                 .change_case(change_case);
             b = b.include_dirs(includes);
+            if !dedup.is_empty() {
+                b = b.dedup(dedup.iter().map(|x| x.clone().into()));
+            }
             b.compile_with_config(services, output);
         }
         _ => panic!("mode"),
